@@ -62,8 +62,9 @@ func (rp *RuleParser) ParseVariables(vars string) error {
 				// we don't want to miss the last character
 				if curr == 0 {
 					curVar = append(curVar, c)
-				} else if curr != 2 && c != '/' {
-					// we don't want the last slash if it's a regex
+				} else if curr != 2 {
+					// (the closing slash of a regex is not part of it; any other last
+					// character, including a slash ending a plain key, belongs to the key)
 					curKey = append(curKey, c)
 				}
 			}
